@@ -2,6 +2,7 @@
   Props.C14 — config, status, if-feature and deviations shape the tree as specified.
 -/
 import YV.Proofs.YCfg
+import YV.Proofs.YDev
 namespace YV.Props.C14
 open YV YV.Y YV.SC YV.C YV.CS
 
@@ -83,5 +84,41 @@ theorem C14_deviate_not_supported (d : Dev) (a : A) (hk : d.kind = .notSupported
     (d.alone = false → devNode d a = .error "No other deviate statements allowed with not-supported") := by
   simp only [devNode, editNode, hk]
   cases d.alone <;> simp [pure, Except.pure]
+
+/-- **C14 (deviations = edits of the source).** For any list of deviate add / replace / delete statements — any
+    targets, at any depth, through choices and cases, in the order written — compiling the module with the
+    deviations is compiling the module whose source was edited accordingly; and when the RFC forbids one of them
+    (the edit does not exist) the module is refused. -/
+theorem C14_deviations_are_edits (decls : List FeatDecl) (raw : List Tok) (lm : Tok) (top : List A) (devs : List Dev)
+    (h : ∀ d ∈ devs, d.kind ≠ .notSupported) :
+    (∀ t, editAll top devs = some t → compileCfg decls raw lm top devs = compileCfg decls raw lm t []) ∧
+    (editAll top devs = none → ∀ cs, compileCfg decls raw lm top devs ≠ .ok cs) := by
+  constructor
+  · intro t ht
+    have h1 := (applyDevs_iff devs h top t).mpr ht
+    simp only [compileCfg, h1, applyDevs]
+    rfl
+  · intro hn cs hc
+    simp only [compileCfg] at hc
+    cases hv : verifyFeatures decls raw lm with
+    | error e => simp [hv, bind, Except.bind] at hc
+    | ok env =>
+      cases ha : applyDevs top devs with
+      | error e => simp [hv, ha, bind, Except.bind] at hc
+      | ok t => rw [(applyDevs_iff devs h top t).mp ha] at hn; cases hn
+
+/-- **C14 (not-supported = the node is gone).** Marking the target (which is what the processor does) and
+    building gives the schema of the body with the target deleted, for every filter and feature set, wherever
+    the target is. -/
+theorem C14_not_supported_is_removal (d : Dev) (hk : d.kind = .notSupported) (ha : d.alone = true) (top t' : List A)
+    (h : devKids d d.path top = .ok t') :
+    ∃ t'', editKids d d.path top = some t'' ∧ ∀ f env, compile f env t' = compile f env t'' :=
+  notSupported_compile d hk ha top t' h
+
+/-- non-vacuity: `deviate replace { default }` on a leaf inside a case inside a choice inside a container -/
+example : editAll [.container [1] {} false [.choice [2] {} false none [.case [3] {} [.leaf [4] {} false (some [7])]]]]
+    [{ path := [[1], [2], [3], [4]], kind := .replace, prop := .dflt, val := [8] }] =
+    some [.container [1] {} false [.choice [2] {} false none [.case [3] {} [.leaf [4] {} false (some [8])]]]] := by
+  simp [editAll, editKids, editInto, editNode, A.name, getProp, setProp]
 
 end YV.Props.C14
